@@ -10,7 +10,9 @@ From Coq Require Import ZArith List Bool Arith.
 Import ListNotations.
 Local Open Scope Z_scope.
 
-Inductive action := Wr (g:nat) (v:Z) | Rd (g:nat).
+(* Cp src dst: copy one global to another without observing it (a call saving a setting in a local -- a slot only it uses --
+   and putting it back on return) *)
+Inductive action := Wr (g:nat) (v:Z) | Rd (g:nat) | Cp (src dst:nat).
 Definition block := list action.
 Definition prog := list block.
 
@@ -22,6 +24,7 @@ Fixpoint run_block (m:nat -> Z) (b:block) : (nat -> Z) * list Z :=
   | [] => (m, [])
   | Wr g v :: b' => run_block (upd m g v) b'
   | Rd g :: b' => let '(m', o) := run_block m b' in (m', m g :: o)
+  | Cp sg dg :: b' => run_block (upd m dg (m sg)) b'
   end.
 
 Record st := { mem : nat -> Z; rem : nat -> prog; obs : nat -> list Z }.
@@ -59,11 +62,13 @@ Fixpoint own_before (w:list nat) (b:block) : bool :=
   | [] => true
   | Wr g _ :: b' => own_before (g :: w) b'
   | Rd g :: b' => existsb (Nat.eqb g) w && own_before w b'
+  | Cp _ _ :: b' => own_before w b'
   end.
 
 (* ---- entry point of the correspondence check ---- *)
-(* programs as lists of blocks of (kind, global, value) triples: kind 0 = write, 1 = read *)
-Definition action_of (a:Z*Z*Z) : action := let '(k, g, v) := a in if k =? 0 then Wr (Z.to_nat g) v else Rd (Z.to_nat g).
+(* programs as lists of blocks of (kind, global, value) triples: kind 0 = write, 1 = read, 2 = copy global g to global v *)
+Definition action_of (a:Z*Z*Z) : action :=
+  let '(k, g, v) := a in if k =? 0 then Wr (Z.to_nat g) v else if k =? 1 then Rd (Z.to_nat g) else Cp (Z.to_nat g) (Z.to_nat v).
 Definition prog_of (p:list (list (Z*Z*Z))) : prog := map (map action_of) p.
 Definition run_threads (ps:list (list (list (Z*Z*Z)))) (sched:list Z) : list (list Z) :=
   let n := length ps in
